@@ -508,3 +508,118 @@ func harnessC08sameID() {
 	vCover("established")
 	vDone()
 }
+
+// harnessC08second: a SECOND brokered connection in the same direction on another ID, while the first ID's listener is
+// still being served (a gRPC server keeps calling Accept on its listener): the stream dialled for b is delivered by b's
+// listener, and a's listener receives nothing more. Canonical schedule, symbolic IDs and gaps.
+func harnessC08second() {
+	mainLn = &vListener{q: make(chan net.Conn, 4)}
+	lg := vLogger{}
+	sm := grpcmux.NewGRPCServerMuxer(lg, mainLn)
+	cm, err := grpcmux.NewGRPCClientMuxer(lg, vAddr{})
+	vAssume(err == nil)
+	h2p, p2h := make(chan *plugin.ConnInfo, 8), make(chan *plugin.ConnInfo, 8)
+	hb := newGRPCBroker(&vStreamer{out: h2p, in: p2h}, nil, UnixSocketConfig{}, nil, cm)
+	pb := newGRPCBroker(&vStreamer{out: p2h, in: h2p}, nil, UnixSocketConfig{}, nil, sm)
+	go func() { vDaemon(); hb.Run() }()
+	go func() { vDaemon(); pb.Run() }()
+	mainGot := 0
+	go func() {
+		vDaemon()
+		for {
+			if _, err := sm.Accept(); err != nil {
+				return
+			}
+			mainGot++
+		}
+	}()
+	acc, dia := pb, hb
+	if vChoice(2) == 1 {
+		vCover("host-accepts")
+		acc, dia = hb, pb
+	} else {
+		vCover("plugin-accepts")
+	}
+	a, b := vNondetU32("a"), vNondetU32("b")
+	vAssume(a != b)
+	ids := []uint32{a, b}
+	var got [2][]net.Conn
+	var dialed [2]net.Conn
+	base := int64(0)
+	for e := 0; e < 2; e++ {
+		e := e
+		gap := vNondetTime("gap")
+		vAssume(gap > 0 && gap < 5*sec)
+		tA, tD := base, base+gap
+		if vChoice(2) == 1 {
+			vCover("dial-first")
+			tA, tD = base+gap, base
+		} else {
+			vCover("accept-first")
+		}
+		var aerr, derr error
+		doneD := make(chan struct{})
+		go func() {
+			vSleepUntil(tA)
+			ln, err := acc.Accept(ids[e])
+			aerr = err
+			if err != nil {
+				return
+			}
+			vDaemon() // from here on: the serve loop of this ID's server
+			for {
+				c, err := ln.Accept()
+				if err != nil {
+					return
+				}
+				got[e] = append(got[e], c)
+			}
+		}()
+		go func() {
+			vSleepUntil(tD)
+			dialed[e], derr = dia.muxDial(ids[e])("", 0)
+			close(doneD)
+		}()
+		<-doneD
+		vSleepUntil(vNow() + 6*sec)
+		vAssert(aerr == nil && derr == nil, "C08: accept and dial of a correctly established ID succeed (second connection in the same direction)")
+		vAssert(len(got[e]) == 1 && got[e][0].(*yamux.Stream) == strmPeer[dialed[e].(*yamux.Stream)], "C08: the stream dialled for n is delivered by n's listener (second connection in the same direction)")
+		vAssert(len(got[0]) == 1, "C08: an earlier ID's listener, still being served, receives none of the later connections")
+		vAssert(mainGot == 0 && !sessionClosed, "C08: the main listener gets no brokered stream and the session stays open")
+		base = vNow() + sec
+		vSleepUntil(base)
+	}
+	vCover("both-established")
+	vDone()
+}
+
+// C20: a multiplexed brokered listener closed from two goroutines at once (at shutdown GRPCBroker.Close closes every
+// listener still being served while the AcceptAndServe goroutine it woke closes its own): all schedules within the
+// reversal bound; no panic (double close of the pending entry's channel), no race.
+func harnessC20muxListenerClose() {
+	mainLn = &vListener{q: make(chan net.Conn, 4)}
+	lg := vLogger{}
+	sm := grpcmux.NewGRPCServerMuxer(lg, mainLn)
+	cm, err := grpcmux.NewGRPCClientMuxer(lg, vAddr{})
+	vAssume(err == nil)
+	h2p, p2h := make(chan *plugin.ConnInfo, 8), make(chan *plugin.ConnInfo, 8)
+	hb := newGRPCBroker(&vStreamer{out: h2p, in: p2h}, nil, UnixSocketConfig{}, nil, cm)
+	pb := newGRPCBroker(&vStreamer{out: p2h, in: h2p}, nil, UnixSocketConfig{}, nil, sm)
+	b := pb
+	if vChoice(2) == 1 {
+		vCover("host-side")
+		b = hb
+	} else {
+		vCover("plugin-side")
+	}
+	ln, err := b.Accept(7)
+	vAssume(err == nil)
+	done := make(chan struct{}, 2)
+	go func() { ln.Close(); done <- struct{}{} }()
+	go func() { ln.Close(); done <- struct{}{} }()
+	<-done
+	<-done
+	ln.Close() // and once more, sequentially
+	vCover("closed-twice")
+	vDone()
+}
